@@ -93,7 +93,7 @@ def choices(population, weights=None, *, cum_weights=None, k=1):
             ctx.assume(w > 0)
         idxs.append(idx)
         out.append(select(population, idx))
-    rec["result"] = out
+    rec["result"] = list(out)  # a copy: callers patch the returned list in place
     return out
 
 
